@@ -208,9 +208,7 @@ def negotiate (loc rem : List Cap) : Codec :=
   let lmap := parseCaps loc
   let rmap := parseCaps rem
   let common := rmap.filterMap (fun (frc : Fam × Raw) =>
-    match lookup frc.1 lmap with
-    | some lc => some (frc.1, lc, frc.2)
-    | none => none)
+    (lookup frc.1 lmap).map (fun lc => (frc.1, lc, frc.2)))
   { extLen := hasEm loc && hasEm rem
     extNh := common.any (fun x => x.2.1.extNh && x.2.2.extNh)
     fams := common.map (fun x =>
